@@ -516,7 +516,10 @@ class Interp:
                         *[z3.BoolVal(p) if isinstance(p, bool) else p for p in parts])
             elif is_z3(a) or is_z3(b):
                 sn = self.sort_of(a) if is_z3(a) else self.sort_of(b)
-                if (a is None or b is None) and sn not in getattr(U, 'options', {}):
+                if (a is None or b is None) and sn in getattr(U, 'none_values', {}):
+                    # a datatype with a constructor that stands for None
+                    r = (a if is_z3(a) else b) == U.none_values[sn]
+                elif (a is None or b is None) and sn not in getattr(U, 'options', {}):
                     r = False
                 else:
                     try:
@@ -1934,7 +1937,13 @@ def _b_getattr(I, args, kwargs, node):
     return I.getattr(args[0], args[1])
 
 
+def _b_defined(I, args, kwargs, node):
+    """defined('x') in ghost code: is the local variable bound on this path? (a Python bool: it selects ghost code per path)"""
+    return isinstance(args[0], str) and args[0] in I.env
+
+
 BUILTINS = {
+    'defined': _b_defined,
     'set': _b_set, 'getattr': _b_getattr,
     'cons': _b_cons, 'unwrap': _b_unwrap,
     'rank': _b_rank, 'next': _b_next, 'zip': _b_zip, 'cycle': _b_cycle, 'chain': _b_chain,
